@@ -1,31 +1,30 @@
-//! dsverif — drives the real dropshot crate (path dependency on /repo) on
-//! generated cases and prints, per case, the input, the implementation's
-//! observation and the same pair as a Gallina literal.
+//! Command line shared by every harness binary:
 //!
-//!   dsverif <prop> gen --seed N --tier quick|thorough   > cases.jsonl
-//!   dsverif <prop> replay <file.json>                    > cases.jsonl
-mod util;
-mod c05;
-mod dynschema;
-mod router;
-
+//!   <bin> gen --seed N --tier quick|thorough [--mode M]   > cases.jsonl
+//!   <bin> replay <file.json> [--mode M]                   > cases.jsonl
+//!
+//! One JSON line per case (see `util::Line`).  A replay file is
+//! {"cases":[{"case":..},..]}, a list of cases, or one case.
+use crate::util::Opts;
 use std::io::Write;
-use util::Opts;
 
-fn main() {
-    // Registration conflicts are panics; keep stderr quiet.
-    std::panic::set_hook(Box::new(|_| {}));
+pub fn main(run: impl FnOnce(&Opts, Option<Vec<serde_json::Value>>, &mut dyn Write)) {
+    // Registration conflicts and handler failures are panics; keep stderr quiet
+    // unless asked.
+    if std::env::var("DSVERIF_PANIC_MSG").is_err() {
+        std::panic::set_hook(Box::new(|_| {}));
+    }
     let args: Vec<String> = std::env::args().collect();
-    if args.len() < 3 {
-        eprintln!("usage: dsverif <prop> gen|replay ...");
+    if args.len() < 2 {
+        eprintln!("usage: {} gen|replay ...", args[0]);
         std::process::exit(2);
     }
-    let prop = args[1].as_str();
-    let mode = args[2].as_str();
+    let mode = args[1].as_str();
     let mut seed = 1u64;
     let mut thorough = false;
+    let mut submode = String::new();
     let mut file: Option<String> = None;
-    let mut i = 3;
+    let mut i = 2;
     while i < args.len() {
         match args[i].as_str() {
             "--seed" => {
@@ -36,19 +35,22 @@ fn main() {
                 thorough = args[i + 1] == "thorough";
                 i += 2;
             }
+            "--mode" => {
+                submode = args[i + 1].clone();
+                i += 2;
+            }
             other => {
                 file = Some(other.to_string());
                 i += 1;
             }
         }
     }
-    let opts = Opts { seed, thorough };
+    let opts = Opts { seed, thorough, mode: submode };
     let stdout = std::io::stdout();
     let mut out = std::io::BufWriter::new(stdout.lock());
     let replay: Option<Vec<serde_json::Value>> = if mode == "replay" {
         let text = std::fs::read_to_string(file.expect("replay file")).expect("read replay");
         let v: serde_json::Value = serde_json::from_str(&text).expect("replay json");
-        // a replay file is either {"cases":[..]}, a list of cases, or one case
         Some(if let Some(a) = v.get("cases").and_then(|c| c.as_array()) {
             a.iter().map(|c| c.get("case").cloned().unwrap_or(c.clone())).collect()
         } else if let Some(a) = v.as_array() {
@@ -59,14 +61,6 @@ fn main() {
     } else {
         None
     };
-    match prop {
-        "c05" => c05::run(&opts, replay, &mut out),
-        "router" => router::run(&opts, replay, &mut out, 8),
-        "router-conflicts" => router::run(&opts, replay, &mut out, 45),
-        _ => {
-            eprintln!("unknown property {}", prop);
-            std::process::exit(2);
-        }
-    }
+    run(&opts, replay, &mut out);
     out.flush().unwrap();
 }
